@@ -54,7 +54,7 @@ func TestStreams(t *testing.T) {
 		if c.Spec.ClientCloses {
 			stats.Class("stream:client-closes")
 		}
-		if msg := streamcase.ClientToServer(d, s, meth, c, obs); msg != "" {
+		if msg := streamcase.ClientToServer(d, s, meth, c, obs); msg != "" && !streamcase.Skipped(msg) {
 			if strings.HasPrefix(msg, "INCONCLUSIVE") {
 				rt_.Fatalf("%s", msg)
 			}
